@@ -33,8 +33,9 @@ from ..dims import Dim, fmt_shape
 from ..model import ClassInfo, FuncInfo
 from ..shapes import (
     NONE, BoolV, ClassV, FloatV, Frame, Interp, IntV, NoneV, ObjV, ParamV, PathLimit, SemiringV, ShapeError, State, TensorV, TupleV,
-    Unknown, V, mkint, new_param,
+    Unknown, V, fresh_tensor, mkint, new_param,
 )
+from ..layout import fmt_all
 
 NODES = "cirkit.backend.torch.parameters.nodes"
 PARAM_OP = NODES + ".TorchParameterOp"
@@ -140,7 +141,7 @@ def _one_param_op(ctx: Ctx, c: ClassInfo, init: FuncInfo, fwd: FuncInfo, tag: st
             if not (isinstance(in_shapes, TupleV) and all(isinstance(x, TupleV) and all(isinstance(y, IntV) for y in x.items) for x in in_shapes.items)):
                 out.append(unres("R4a", c.qualname, inst, "in_shapes not resolved after the constructor", fwd.loc))
                 continue
-            ins: list[V] = [TensorV((F,) + tuple(y.d for y in x.items)) for x in in_shapes.items]  # type: ignore[union-attr]
+            ins: list[V] = [fresh_tensor(s2.norm_shape((F,) + tuple(y.d for y in x.items))) for x in in_shapes.items]  # type: ignore[union-attr]
             try:
                 shapes = list(it.getattr(obj, "shape", s2, fr))
             except ShapeError:
@@ -158,6 +159,7 @@ def _one_param_op(ctx: Ctx, c: ClassInfo, init: FuncInfo, fwd: FuncInfo, tag: st
                     cond = ("; under " + " and ".join(s4.assumed)) if s4.assumed else ""
                     if got == want:
                         out.append(ok("R4a", c.qualname, inst, f"{fmt_shape(got)}{cond}", fwd.loc))
+                        out.append(_layout_ob(c, inst, rv, fwd.loc))
                     else:
                         out.append(viol("R4a", c.qualname, inst, f"forward returns {fmt_shape(got)} but the declared shape is (F, *shape) = {fmt_shape(want)}{cond}", fwd.loc))
         return _dedup(out)
@@ -167,6 +169,51 @@ def _one_param_op(ctx: Ctx, c: ClassInfo, init: FuncInfo, fwd: FuncInfo, tag: st
         return [unres("R4a", c.qualname, inst, "path limit", fwd.loc)]
     except RecursionError:
         return [unres("R4a", c.qualname, inst, "recursion limit", fwd.loc)]
+
+
+# element order of the axes a parameter operator creates.  Cross-operand rule (no table): wherever an
+# axis combines units of several operands, the earlier operand is major -- this is the "Kronecker
+# order" every consumer assumes (OuterProduct / OuterSum / Kronecker / PolynomialProduct / the three
+# GaussianProduct statistics must agree with each other, they are combined in one layer).
+# Same-operand orders are operator specific:
+UNARY_LAYOUT = {
+    "TorchFlattenParameter": "increasing",  # torch.flatten semantics: (.., d_s, .., d_e, ..) -> d_s major
+    "TorchMixingWeightParameter": "arity-major",  # (K, H) -> (K, H*K) laid out [H, K]: TorchSumLayer flattens its input (H, Ki) H major
+}
+
+
+def _layout_ob(c: ClassInfo, inst: str, rv: TensorV, loc: str) -> Ob:
+    linst = inst.replace("forward[", "layout[")
+    if rv.lay is None:
+        return unres("R4l", c.qualname, linst, "element order of the result not derived", loc)
+    bad = None
+    unknown = False
+    for k, lay in enumerate(rv.lay):
+        if lay is None:
+            d = rv.shape[k]
+            if len(d.t) == 1 and sum(e for m in d.t for _, e in m) > 1:  # a product of sizes: its order matters
+                unknown = True
+            continue
+        labels = [l.split("|")[0].split(".")[0] for l, _ in lay]
+        ops = ["abcd".index(l[0]) if l and l[0] in "abcd" and l[1:].isdigit() else None for l in labels]
+        if None in ops or len(labels) < 2:
+            continue
+        # the Gaussian statistics take (mean1, stddev1, mean2, stddev2): operands 0,1 belong to the first layer
+        grp = [o // 2 if c.name.startswith("TorchGaussianProduct") and c.name != "TorchGaussianProductStddev" else o for o in ops]
+        if grp != sorted(grp):
+            bad = f"axis {k} is laid out {fmt_all([lay])[1:-1]}: the units of a later operand are major"
+        elif len(set(grp)) == 1:
+            idx = [int(l[1:]) for l in labels]
+            conv = UNARY_LAYOUT.get(c.name)
+            if conv == "increasing" and idx != sorted(idx):
+                bad = f"axis {k} is laid out {fmt_all([lay])[1:-1]}, not in increasing axis order"
+            elif conv == "arity-major" and idx != sorted(idx, reverse=True):
+                bad = f"axis {k} is laid out {fmt_all([lay])[1:-1]}: the sum layer reads its weight columns arity-major ([a1, a0])"
+    if bad:
+        return viol("R4l", c.qualname, linst, bad + f"; result layout {fmt_all(rv.lay)}", loc)
+    if unknown:
+        return unres("R4l", c.qualname, linst, f"element order of a product axis not derived: {fmt_all(rv.lay)}", loc)
+    return ok("R4l", c.qualname, linst, fmt_all(rv.lay), loc)
 
 
 def _dedup(obs: list[Ob]) -> list[Ob]:
